@@ -177,6 +177,7 @@ def is_flush_call(call: ast.Call) -> bool:
 
 def run(ctx):
     ctx.rule("R05.x", "context-manager model: _batch_call_watchers, batch_call_watchers, discard_events, _syncing and edit_constant interpreted abstractly with the body of the `with` supplied at the `yield` (62 cases: entry state x body ends normally / raises x nesting x queues replaced in the body x Parameter copies made in the body): flag, queues, syncing set and constant flags are, after the block, what they were before; the flush runs iff outermost, after the restore, also when the body raised", floor=1)
+    ctx.rule("R05.y", "Event model: Event.__set__ interpreted abstractly on mode (set-reset / set / reset) x the assignment proper succeeds / is refused / a watcher raises: in set-reset the Event is assigned and then reset whatever happens, in set (held so by update/trigger while it is delivered) it is assigned and NOT reset, in reset it is only reset", floor=1)
     ctx.rule("R05.a", "every may-raise node that can follow a TEMP-write of a transient dispatcher field "
                       "(without an intervening ORIG-write) lies in a try whose finally / re-raising catch-all "
                       "handler restores the field", floor=8)
@@ -286,6 +287,8 @@ def run(ctx):
                                  key="%s::flush-before-restore::%s" % (f.qualname, fn_.text()))
     _scope_floor(ctx, temp_scopes)
 
+    from checks.shared import event_model
+    event_model(ctx, "R05.y", "C05")
     from checks import update_model
     update_model.report(ctx, "C05", "R05.m")
     from checks import trigger_model
